@@ -33,6 +33,12 @@ def sibling(lat, rng):
     """a lattice described by the SAME numbers as `lat`: another crystal system with the same parameter count, the other call form
     (system named / inferred), or the identical description again"""
     nums = tuple(x for x in lat if not isinstance(x, str))
+    if rng.random() < 0.4:
+        # the same description with the lengths a few parts per million (or per hundred million) off: thermal expansion, the last steps of
+        # a converging refinement — a new lattice however small the change
+        f = 1.0 + rng.choice((-1, 1)) * 10.0 ** rng.uniform(-7.5, -4)
+        k = {1: 1, 2: 2 if (len(lat) > len(nums) and lat[0] != "Rhombohedral") or len(lat) == len(nums) else 1, 3: 3, 4: 3, 6: 3}.get(len(nums), 0)
+        return tuple(x for x in lat if isinstance(x, str)) + tuple(v * f if i < k else v for i, v in enumerate(nums))
     named = {1: ["Cubic"], 2: ["Tetragonal", "Hexagonal"] + (["Rhombohedral"] if 0 < nums[-1] < 120 else []), 3: ["Orthorhombic"],
              4: ["Monoclinic"], 6: ["Triclinic"]}.get(len(nums), [])
     forms = [(n,) + nums for n in named] + [lat]
